@@ -529,9 +529,39 @@ def c_opassigns(body):
     return sorted(out)
 
 
+def c_opassign_counts(body):
+    """{(field, operator): number of compound assignments `state->field OP= ...`} of a C function body"""
+    out = {}
+    for m in re.finditer(r"\b(?:s|state|strm)->(?:x\.|strm\.)?(\w+)\s*(>>=|<<=|\+=|-=|\|=|&=|\^=)", body):
+        k = (m.group(1), C_OPS[m.group(2)])
+        out[k] = out.get(k, 0) + 1
+    return out
+
+
+def rust_opassign_counts(fns, allf):
+    """{(field, operator): number of in-place update sites} over the paired functions and their helpers; the sites of a helper
+    count once per live call to it from the set (a site that moved into a helper called twice is still two updates)"""
+    calls = {}
+    for g in allf:
+        for c in g.live_calls():
+            if c.callee:
+                calls[c.callee] = calls.get(c.callee, 0) + 1
+    roots = {f.path for f in fns}
+    out = {}
+    for g in allf:
+        w = 1 if g.path in roots else max(1, calls.get(g.path, 1))
+        for k in _rust_opassign_sites([g]):
+            out[k] = out.get(k, 0) + w
+    return out
+
+
 def rust_opassigns(fns):
     """(field, operator) for every store `place.field = place.field OP ...` (a compound assignment)"""
-    out = set()
+    return set(_rust_opassign_sites(fns))
+
+
+def _rust_opassign_sites(fns):
+    out = []
     for f in fns:
         for bi, fp, root, rv, st in f.field_writes():
             if not fp:
@@ -549,7 +579,7 @@ def rust_opassigns(fns):
                 op = str(e[1])
                 for suf in ("WithOverflow", "Unchecked"):
                     op = op.replace(suf, "")
-                out.add((str(fp[-1]).lower(), op))
+                out.append((str(fp[-1]).lower(), op))
     return out
 
 
@@ -863,6 +893,17 @@ def check(ck, P, rule, only=None):
             ck.decide(any((a_, op) in rops for a_ in alts), rule, "%s:update:%s:%s" % (cname, cf, op), "still updated with that operator",
                       "zlib-ng's %s updates `%s` with %s; %s (with its helpers) no longer updates it that way: the direction or kind of "
                       "an in-place update of the reference has changed" % (cname, cf, op, ", ".join(f.path.replace(Z, "") for f in fns)), where(fns[0]))
+        if table.get("opcounts", {}).get(key):
+            rcnt = rust_opassign_counts(fns, allf)
+            for fo, want in sorted(table["opcounts"][key].items()):
+                cf, op = fo.split("|")
+                n += 1
+                alts = ALIAS.get(cf.lower(), {cf.lower()}) | {cf.lower()}
+                got = sum(v_ for (a_, o_), v_ in rcnt.items() if o_ == op and a_ in alts)
+                ck.decide(got >= want, rule, "%s:update-count:%s:%s" % (cname, cf, op), "%d in-place updates of that kind, as in the reference" % want,
+                          "zlib-ng's %s updates `%s` in place with %s at %d places and so did the port; %s (with its helpers) now does so at %d: "
+                          "one of the in-place updates of the reference became a plain store or was dropped"
+                          % (cname, cf, op, want, ", ".join(f.path.replace(Z, "") for f in fns), got), where(fns[0]))
         for cf, frozen in sorted(table.get("opsets", {}).get(key, {}).items()):
             n += 1
             alts = ALIAS.get(cf.lower(), {cf.lower()}) | {cf.lower()}
